@@ -415,6 +415,12 @@ def _sint_code(v):
     return out
 
 
+def giant_values():
+    """Variable-length integers are unbounded: values of hundreds to tens of thousands of bits (beyond 64-bit
+    arithmetic, and beyond the 4300 decimal digits which Python >= 3.11 converts to text by default)."""
+    return st.builds(lambda n, low: (1 << n) + low, st.sampled_from([64, 200, 1000, 14300, 14500, 20000, 40000]), st.integers(0, 1 << 32))
+
+
 @st.composite
 def bitfield_mutate(draw, i):
     """Replace the encoding of 1-3 fields of corpus stream i in the byte string itself."""
@@ -454,13 +460,18 @@ def bitfield_mutate(draw, i):
             code = ba(format(new, "0%db" % n))
         elif kind == "uint":
             new = max(0, draw(_new_value(value, name)))
+            if draw(st.integers(0, 11)) == 0:
+                new = draw(giant_values())
             code = _uint_code(new)
+        elif draw(st.integers(0, 15)) == 0:
+            new = draw(giant_values()) * draw(st.sampled_from([1, -1]))
+            code = _sint_code(new)
         else:
             new = draw(st.sampled_from([0, 1, -1, value + 1, -value, value * 2 + 1, (1 << draw(st.integers(1, 40))) - 1,
                                         -(1 << draw(st.integers(1, 40)))]))
             code = _sint_code(new)
         bits = bits[:start] + code + bits[end:]
-        ops.append("%s:%r->%r" % (name, value, new))
+        ops.append("%s:%r->%s" % (name, value, new if abs(new) < (1 << 64) else "~2^%d" % new.bit_length()))
     pad = (-len(bits)) % 8
     if pad:
         bits += ba("0" * pad)
